@@ -715,6 +715,9 @@ impl TypeChecker {
             }
             E::Variant { ty, variant, value, span } => {
                 let (value_ret, value) = self.expression(value, ctx)?;
+                // `void` has no values - so it cannot be the value of a variant either.
+                self.add_constraint(value, *span, Constraint::Variable);
+                self.check_constraints(*span, ctx, value)?;
                 // TODO[ed]: We should be able to do without this!
                 let enum_ty = self.copy(self.variables[*ty].ty);
                 self.add_constraint(
@@ -1078,6 +1081,9 @@ impl TypeChecker {
                 let ret = Some(self.push_type(Type::Unknown));
                 for expr in values.iter() {
                     let (inner_ret, ty) = self.expression(expr, ctx)?;
+                    // `void` has no values - so it cannot be put in a tuple either.
+                    self.add_constraint(ty, expr.span(), Constraint::Variable);
+                    self.check_constraints(expr.span(), ctx, ty)?;
                     tys.push(ty);
                     self.unify_option(*span, ctx, ret, inner_ret)?;
                 }
@@ -1089,6 +1095,8 @@ impl TypeChecker {
                 let ret = Some(self.push_type(Type::Unknown));
                 for expr in values.iter() {
                     let (e_ret, e) = self.expression(expr, ctx)?;
+                    // `void` has no values - so it cannot be put in a list either.
+                    self.add_constraint(e, expr.span(), Constraint::Variable);
                     self.unify(*span, ctx, inner_ty, e)?;
                     self.unify_option(*span, ctx, ret, e_ret)?;
                 }
@@ -1969,7 +1977,17 @@ impl TypeChecker {
 
     fn equ(&mut self, span: Span, ctx: TypeCtx, a: TyID, b: TyID) -> TypeResult<()> {
         // Equal types all support equality!
-        self.unify(span, ctx, a, b).map(|_| ())
+        let ty = self.unify(span, ctx, a, b)?;
+        // ... but `void` has no values to compare.
+        if self.is_void(ty) {
+            return err_type_error!(
+                self,
+                span,
+                TypeError::Exotic,
+                "The `void` has no values and cannot be compared"
+            );
+        }
+        Ok(())
     }
 
     fn cmp(&mut self, span: Span, ctx: TypeCtx, a: TyID, b: TyID) -> TypeResult<()> {
